@@ -1,0 +1,46 @@
+//go:build verif
+
+// Contracts for the verification machinery in /verif (comment-only; excluded from normal builds).
+// Property C08 (dispatch layer only). The three scanners are abstracted: their token streams are arbitrary.
+
+package xlang
+
+//@ func DetectLang
+//@   ensures[range] result == token.LangType_Wa || result == token.LangType_Wz || result == token.LangType_Wat || result == token.LangType_Nasm || result == token.LangType_Unknown
+//@   loop 0 invariant true
+//@   loop 1 invariant true
+//@   loop 2 invariant true
+//@   safe
+//@   noframe
+//@   property C08
+
+// FileSet bookkeeping (three token packages share these short names) is irrelevant to the dispatch:
+// results arbitrary, no effect on the state DetectLang looks at.
+//@ extern token.NewFileSet
+//@   trusted
+//@ extern (*token.FileSet).AddFile
+//@   trusted
+//@ extern (*token.FileSet).Base
+//@   trusted
+//@ extern token.NewFile
+//@   trusted
+
+// Token classification (keyword tables, map lookups): arbitrary answers.
+//@ extern token.LookupEx
+//@   pure
+//@   trusted
+//@ extern (token.Token).IsKeyword
+//@   pure
+//@   trusted
+//@ extern (token.Token).IsWzKeyword
+//@   pure
+//@   trusted
+//@ extern (token.Token).IsWzComment
+//@   pure
+//@   trusted
+//@ extern (token.Token).IsGasKeyword
+//@   pure
+//@   trusted
+//@ extern (token.Token).IsZhKeyword
+//@   pure
+//@   trusted
